@@ -62,6 +62,9 @@ def batch(tier):
         "hourly-4-seed1234": meter("hourly", "hourly_seed_alt", 4, ghi=False),
         "hourly-randomsel-15": meter("hourly", "hourly_random_sel", 15, ghi=False),
         "hourly-13-randomsel-seed1234": meter("hourly", "hourly_random_sel_alt", 13, ghi=False, weekend_shift=0.3),
+        # (for these two baselines the clustering does depend on the seed: measured, seed 0 / seed 1234 give other labels than seed 7 / 5)
+        "hourly-4-seed0": meter("hourly", "hourly_seed0", 4, ghi=False),
+        "hourly-15-seed1234": meter("hourly", "hourly_seed_alt", 15, ghi=False),
     }
     if tier == "thorough":
         ms["hourly-supplcat-25"] = meter("hourly", "hourly_supplemental_cat", 25, ghi=False)
@@ -180,9 +183,25 @@ def shards(tier, seed):
     return [{"tier": tier, "n": 3 if tier == "quick" else 12, "seed": mix(seed, ID, 0)}]
 
 
+def fixed_schedules():
+    """Schedules every run executes: the meters that share a baseline but differ in a setting (the seed, the selection rule) are fitted
+    one after the other in one process, in both orders - a result may depend on its own settings only."""
+    same = ["hourly-4", "hourly-4-seed1234", "hourly-4-seed0", "hourly-13", "hourly-13-randomsel-seed1234", "hourly-randomsel-15", "hourly-15-seed1234"]
+    env = {"hashseed": "0", "threads": "unset"}
+    fwd = [["fit", n, False] for n in same] + [["junk", "rng", 5], ["fit", "hourly-4", False], ["fit", "hourly-randomsel-15", False]]
+    rev = [["junk", "rng", 9]] + [["fit", n, False] for n in reversed(same)] + [["fit", "hourly-13-randomsel-seed1234", False]]
+    daily = [["fit", "daily-legacy-1", False], ["fit", "daily-step-9", False], ["fit", "daily-legacy-14", True], ["fit", "daily-legacy-1", False]]
+    return [{"kind": "schedule", "procs": [{"actions": fwd, "env": env}, {"actions": rev, "env": env}, {"actions": daily, "env": env}]}]
+
+
 def run_shard(spec, rec):
+    from ..hyp import run_judge
+
     meters = batch(spec["tier"])
-    explore(schedules(sorted(meters)), make_judge(meters), rec, max_examples=spec["n"], seed=spec["seed"], shrink=False)
+    judge = make_judge(meters)
+    for sch in fixed_schedules():
+        run_judge(judge, sch, rec)
+    explore(schedules(sorted(meters)), judge, rec, max_examples=spec["n"], seed=spec["seed"], shrink=False)
 
 
 def replay(case, rec):
